@@ -39,7 +39,7 @@ def bounds(tier):
     return {"single_quaternion": "all sign/zero structures", "hemisphere_quaternion_set": "N<=2 (thorough 3) arbitrary quaternions, both `upper` values",
             "fulldiv_size_gate": "N in {8, 40, 272, 2080} each as a case; every other integer N >= 1 symbolic",
             "half_selection": "16 nodes = 8 antipodal pairs: 6 concrete (projected hypercube vertices), 2 symbolic unit quaternions with 0..3 leading zeros each "
-                              "(all 15 combinations for fulldiv, N = 8 of 8; 6 (thorough 15) for cube4D, N = 5 of 8); leading non-zero coordinate of a symbolic node "
+                              "(all 15 combinations for fulldiv, N = 8 of 8; 6 (thorough 15) for cube4D, N = 5 of 8; thorough: three node orders); leading non-zero coordinate of a symbolic node "
                               "more than 1e-3 away from 0 and from +-1/2",
             "double_cover": "N in 1..4 canonical unit rows (quick: for N=4 rows 3,4 have a positive first coordinate); plus an axis-aligned row of symbolic length off 1 by > 1e-3 (assertion)"}
 
@@ -63,8 +63,13 @@ def shapes(tier, seed):
             if (za, zb) == (3, 3):
                 continue          # a = +-b = (0, 0, 0, +-1): not two different rotations
             out.append({"kind": "halfsel", "alg": "fulldiv", "za": za, "zb": zb})
+            if tier == "thorough":
+                out.append({"kind": "halfsel", "alg": "fulldiv", "za": za, "zb": zb, "order": 1})
+                out.append({"kind": "halfsel", "alg": "fulldiv", "za": za, "zb": zb, "order": 2})
     for (za, zb) in ((0, 0), (0, 1), (1, 0), (1, 1), (2, 3), (3, 1)) if tier == "quick" else [(a, b) for a in range(4) for b in range(4) if (a, b) != (3, 3)]:
         out.append({"kind": "halfsel", "alg": "cube4D", "za": za, "zb": zb})
+        if tier == "thorough" or (za, zb) in ((0, 1), (2, 3)):
+            out.append({"kind": "halfsel", "alg": "cube4D", "za": za, "zb": zb, "order": 2})      # the symbolic nodes are among the first N
     return out
 
 
@@ -285,9 +290,11 @@ HS_ORDER = [(0, -1), (6, 1), (1, 1), (7, -1), (2, -1), (0, 1), (3, 1), (6, -1), 
 HS_SEP = z3.RealVal("1/1000")
 
 
-def _hs_nodes(a, b, num):
+def _hs_nodes(a, b, num, order=0):
+    """order 0: HS_ORDER; 1: reversed; 2: the two symbolic pairs first, partners adjacent (a, -a, -b, b, ...)"""
     pairs = [[num(c) for c in v] for v in HS_CONCRETE] + [list(a), list(b)]
-    return [[sgn * x for x in pairs[j]] for (j, sgn) in HS_ORDER], pairs
+    seq = {0: HS_ORDER, 1: HS_ORDER[::-1], 2: [(6, 1), (6, -1), (7, -1), (7, 1)] + [x for x in HS_ORDER if x[0] < 6]}[order]
+    return [[sgn * x for x in pairs[j]] for (j, sgn) in seq], pairs
 
 
 def _hs_premises(a, b, za, zb):
@@ -385,7 +392,7 @@ def run_halfsel(shape):
             pass
 
     def body():
-        rows, _ = _hs_nodes([SR(x) for x in a], [SR(x) for x in b], float)
+        rows, _ = _hs_nodes([SR(x) for x in a], [SR(x) for x in b], float, shape.get("order", 0))
         poly = _hs_poly_class(P, sarr(rows))
         with bound(RO, np=proxy, print=noprint, HalfRotobjVoronoi=Inert, RotobjVoronoi=Inert, Cube4DPolytope=poly), bound(U, np=proxy, print=noprint), \
                 bound(P, np=proxy, print=noprint):
@@ -393,7 +400,7 @@ def run_halfsel(shape):
             g.gen_grid()
             return g.get_grid_as_array(only_upper=False), g.get_grid_as_array(), g.get_N()
 
-    nodes_z, pairs_z = _hs_nodes(a, b, lambda c: z3.RealVal(str(c)))
+    nodes_z, pairs_z = _hs_nodes(a, b, lambda c: z3.RealVal(str(c)), shape.get("order", 0))
     for path in eng.explore(body):
         acc.begin(prover, path)
         if acc.reachable is not True:
@@ -474,7 +481,7 @@ def replay_halfsel(cex):
         def __init__(self, *a_, **k):
             pass
     for a, b in _hs_candidates(s, model, rng):
-        rows, pairs = _hs_nodes(list(a), list(b), float)
+        rows, pairs = _hs_nodes(list(a), list(b), float, s.get("order", 0))
         nodes = np.array(rows, dtype=float)
         allp = np.array(pairs, dtype=float)
         d = np.abs(nodes[:, None, :] - nodes[None, :, :]).max(axis=2) + np.eye(16)
